@@ -105,7 +105,7 @@ def verdictH (classes : String) (impl : String) (model : Option (List (List M)))
 
 def sizeTag (n : Nat) : String := toString (min n 4)
 
-def handle (op : String) (_args : List String) (impl : String) : Option Verdict :=
+def handle1 (op : String) (impl : String) : Option Verdict :=
   let classes := (impl.splitOn "|").headD ""
   match op with
   | "evm" | "sub" => some <| Id.run do
@@ -160,5 +160,14 @@ def handle (op : String) (_args : List String) (impl : String) : Option Verdict 
     return verdictH classes impl (model.map batches) good
       s!"subretry:blocks={sizeTag evs.length}:abort={aborted}:n={sizeTag total}:bad={sizeTag (total - good.length)}:good={sizeTag good.length}"
   | _ => none
+
+/-- `iso <op> <items>`: the same op in a child process. The skeleton models are total and never crash, so a dead or
+    unresponsive child (`crash` / `hang`) is a violation of "terminates without crashing the process". -/
+def handle (op : String) (args : List String) (impl : String) : Option Verdict :=
+  match op, args with
+  | "iso", inner :: _ =>
+    if impl = "crash" ∨ impl = "hang" then some ⟨"survives", false, s!"iso:{inner}:dead"⟩
+    else (handle1 inner impl).map fun v => { v with tag := "iso:" ++ v.tag }
+  | _, _ => handle1 op impl
 
 end Sygma.Drv.C06
